@@ -157,6 +157,11 @@ impl FeoxStore {
                 if timestamp <= retired_at {
                     return Err(FeoxError::OlderTimestamp);
                 }
+                #[cfg(feature = "verif")]
+                {
+                    crate::verif::timestamp(timestamp);
+                    crate::verif::point("incr_vacant", 0, 0);
+                }
 
                 match self.hash_table.entry(key_vec.clone()) {
                     scc::hash_map::Entry::Occupied(_) => continue,
@@ -182,6 +187,8 @@ impl FeoxStore {
                         self.note_ttl_transition(0, ttl_expiry);
                         self.stats.record_count.fetch_add(1, Ordering::Relaxed);
                         drop(entry_guard);
+                        #[cfg(feature = "verif")]
+                        crate::verif::point("before_enqueue", 0, 0);
 
                         if let (Some(write_buffer), Some(record)) =
                             (&self.write_buffer, buffered_record)
@@ -227,6 +234,11 @@ impl FeoxStore {
             );
             let new_value = current_value.saturating_add(delta);
             let timestamp = explicit_timestamp.unwrap_or_else(|| self.get_timestamp(key));
+            #[cfg(feature = "verif")]
+            {
+                crate::verif::timestamp(timestamp);
+                crate::verif::point("incr_read", 0, 0);
+            }
 
             match self.hash_table.entry(key_vec.clone()) {
                 scc::hash_map::Entry::Occupied(mut entry) => {
@@ -262,6 +274,8 @@ impl FeoxStore {
                         self.release_memory(old_size - new_size);
                     }
                     drop(entry);
+                    #[cfg(feature = "verif")]
+                    crate::verif::point("replaced", 0, 0);
 
                     if !self.memory_only {
                         if self.enable_caching {
@@ -269,6 +283,8 @@ impl FeoxStore {
                                 cache.remove_for_record(&key_vec, &old_record);
                             }
                         }
+                        #[cfg(feature = "verif")]
+                        crate::verif::point("before_enqueue", 0, 0);
 
                         if let Some(write_buffer) = &self.write_buffer {
                             write_buffer.add_replacement(record, old_record)?;
@@ -335,6 +351,8 @@ impl FeoxStore {
                 drop(entry_guard);
                 self.stats
                     .record_insert(start.elapsed().as_nanos() as u64, false);
+                #[cfg(feature = "verif")]
+                crate::verif::point("before_enqueue", 0, 0);
 
                 if let (Some(write_buffer), Some(record)) = (&self.write_buffer, buffered_record) {
                     write_buffer.add_write(Operation::Insert, record, 0)?;
@@ -496,7 +514,11 @@ impl FeoxStore {
             source
         };
 
+        #[cfg(feature = "verif")]
+        crate::verif::point("cas_read", 0, 0);
         let timestamp = self.resolve_timestamp(key, timestamp);
+        #[cfg(feature = "verif")]
+        crate::verif::timestamp(timestamp.0);
         self.replace_record_if_current(
             &key_vec,
             &initial_record,
@@ -563,6 +585,8 @@ impl FeoxStore {
 
                 self.stats
                     .record_insert(start.elapsed().as_nanos() as u64, true);
+                #[cfg(feature = "verif")]
+                crate::verif::point("replaced", 0, 0);
 
                 if !self.memory_only {
                     if self.enable_caching {
@@ -570,6 +594,8 @@ impl FeoxStore {
                             cache.remove_for_record(key, &old_record_arc);
                         }
                     }
+                    #[cfg(feature = "verif")]
+                    crate::verif::point("before_enqueue", 0, 0);
 
                     if let Some(ref wb) = self.write_buffer {
                         wb.add_replacement(new_record, old_record_arc)?;
